@@ -59,21 +59,23 @@ def near(a, b, mag, rel=1e-9):
 # 1. bonded interactions
 # ---------------------------------------------------------------------------------------------
 
-def _geom_cmd(r):
+def _geom_cmd(r, verb="ia"):
     box = " ".join(repr(x / LAT) for x in r["box"])
     pos = "  ".join(" ".join(repr(x / LAT) for x in p) for p in r["p"])
-    return "ia %s %s %s  %s" % (r["k"], r["typ"], box, pos)
+    return "%s %s %s %s  %s" % (verb, r["k"], r.get("req", r["typ"]), box, pos)
 
 
 CLASS = {"bond": "IBond", "angle": "IAngle", "dih": "IDihedral"}
 FN = {"id": lambda x: x, "cos": math.cos, "sin": math.sin}
 
 
-def _check_geom(ctx, r, out):
+def _check_geom(ctx, r, out, tag=""):
+    """tag: "" for a fresh Topology + index constructors, ":via-topology" for the session path (list
+    constructors, AddBondedInteraction, repeated setBox / moved beads on the same objects)"""
     cls = CLASS[r["k"]]
     ex = [l for l in out if l.startswith("exc")]
     if ex or not out or not out[0].startswith("res"):
-        ctx.violation("%s:exception" % cls, "%s on %s" % (ex or out, r), r)
+        ctx.violation("%s:exception%s" % (cls, tag), "%s on %s" % (ex or out, r), r)
         return
     nums = [float(t) for t in out[0].split()[1:]]
     val, flat = nums[0], nums[1:]
@@ -86,7 +88,7 @@ def _check_geom(ctx, r, out):
         lhs = FN[x["fn"]](vlat) * math.sqrt(x["l"])
         rhs = x["v"] * math.sqrt(x["rr"])
         if not near(lhs, rhs, math.sqrt(x["l"])):
-            ctx.violation("%s:EvaluateVar:%s:%s" % (cls, r["typ"], x["fn"]),
+            ctx.violation("%s:EvaluateVar:%s:%s%s" % (cls, r["typ"], x["fn"], tag),
                           "%s(value)*sqrt(%d) = %.12g but the geometry gives %d*sqrt(%d) = %.12g; value %r; %s"
                           % (x["fn"], x["l"], lhs, x["v"], x["rr"], rhs, val, _geom_cmd(r)), r)
             return
@@ -106,7 +108,7 @@ def _check_geom(ctx, r, out):
         scale = g["m"] * math.sqrt(g["r"]) * unit
         got = [flat[3 * b + ax] * scale for ax in range(3)]
         true = [x / scale for x in g["v"]]
-        ctx.violation("%s:Grad:bead%d" % (cls, b),
+        ctx.violation("%s:Grad:bead%d%s" % (cls, b, tag),
                       "Grad(bead %d) = %s but the true gradient is %s (scaled by %d*sqrt(%d): %s vs integers %s); %s"
                       % (b, [flat[3 * b + ax] for ax in range(3)], true, g["m"], g["r"], got, g["v"], _geom_cmd(r)), r)
         return
@@ -115,7 +117,7 @@ def _check_geom(ctx, r, out):
         s = sum(flat[3 * b + ax] for b in range(nb))
         mag = max(abs(flat[3 * b + ax]) for b in range(nb))
         if abs(s) > 1e-9 * max(mag, 1e-3):
-            ctx.violation("%s:Grad:sum" % cls, "gradients do not sum to zero (%g on axis %d); %s" % (s, ax, _geom_cmd(r)), r)
+            ctx.violation("%s:Grad:sum%s" % (cls, tag), "gradients do not sum to zero (%g on axis %d); %s" % (s, ax, _geom_cmd(r)), r)
             return
 
 
@@ -136,15 +138,60 @@ def run_geometry(ctx, exe):
         per += r["typ"] != "open"
     if min(kinds.get(k, 0) for k in CLASS) == 0 or per == 0:
         raise vlib.InfraError("vacuous geometry export: %s, %d periodic" % (kinds, per))
-    items = [(i, [_geom_cmd(r)]) for i, r in enumerate(vecs)]
+    # vacuity guards for the placement layer: many distinct boxes, extreme skew, every way of requesting the
+    # box type, image shifts of thousands of boxes
+    boxes = set(tuple(r["box"]) for r in vecs if r["typ"] != "open")
+    skew = sum(1 for r in vecs if r["typ"] == "tric" and r["box"][1] != 0
+               and 2 * abs(r["box"][1]) >= r["box"][0] - 1 and 2 * abs(r["box"][5]) >= r["box"][4] - 1)
+    far = sum(1 for r in vecs if max(abs(x) for p in r["p"] for x in p) > 20000)
+    reqs = set((r["typ"], r.get("req")) for r in vecs)
+    need = {("tric", "tric"), ("tric", "auto"), ("ortho", "ortho"), ("ortho", "auto"), ("open", "open"), ("open", "auto")}
+    if len(boxes) < 200 or skew < 20 or far < 100 or not need <= reqs:
+        raise vlib.InfraError("vacuous placement layer: %d boxes, %d extreme-skew, %d far, %s" % (len(boxes), skew, far, reqs))
+    # even vectors: fresh Topology + index constructors (ia); odd vectors: sessions of 16 on ONE topology whose
+    # interactions were built from a bead list and are reached through BondedInteractions() (tev)
+    items = [(i, [_geom_cmd(r)]) for i, r in enumerate(vecs) if i % 2 == 0]
+    odd = [i for i in range(len(vecs)) if i % 2 == 1]
+    sessions = [odd[j:j + 16] for j in range(0, len(odd), 16)]
+    for n, ids in enumerate(sessions):
+        items.append((("s", n), ["top new"] + [_geom_cmd(vecs[i], "tev") for i in ids]))
     results, crashes = vlib.run_items(exe, items)
+    outs = {}
+    for i in range(0, len(vecs), 2):
+        outs[i] = ("", crashes.get(i), results.get(i, [None])[0])
+    nsess = 0
+    for n, ids in enumerate(sessions):
+        sid = ("s", n)
+        ctx.traces += 1
+        if sid in crashes:
+            for i in ids:
+                outs[i] = (":via-topology", crashes[sid], None)
+            continue
+        o = results[sid]
+        if not o[0] or not o[0][0].startswith("ok 3"):
+            ctx.violation("Topology:AddBondedInteraction", "session topology not built: %s" % o[0], {"session": n})
+            for i in ids:
+                outs[i] = (":via-topology", None, None)
+            continue
+        nsess += len(ids) >= 2
+        for j, i in enumerate(ids):
+            outs[i] = (":via-topology", None, o[1 + j])
+    if nsess == 0:
+        raise vlib.InfraError("vacuous: no topology session with a second evaluation")
     for i, r in enumerate(vecs):
         ctx.count()
         ctx.nontriv(("geom", r["k"], str(r["u"])))
-        if i in crashes:
-            ctx.violation("%s:crash" % CLASS[r["k"]], "driver died: " + crashes[i], r)
+        tag, crash, out = outs[i]
+        if crash:
+            ctx.violation("%s:crash%s" % (CLASS[r["k"]], tag), "driver died: " + crash, r)
             continue
-        _check_geom(ctx, r, results[i][0])
+        if out is None:
+            continue
+        _check_geom(ctx, r, out, tag)
+    ctx.extra["distinct_boxes"] = len(boxes)
+    ctx.extra["extreme_skew_placements"] = skew
+    ctx.extra["far_image_placements"] = far
+    ctx.extra["topology_sessions"] = len(sessions)
     ctx.extra["geometries"] = kinds
     ctx.extra["periodic_placements"] = per
     for k in CLASS:
@@ -189,241 +236,408 @@ def _rows(lines):
     return rows
 
 
-def _lj_cmds(r):
-    np_ = 2 if r["fn"] == "lj126" else 5
-    lam = r["lam"]
-    par = [float(lam[0]), float(lam[1])]
-    if np_ == 5:
-        par += [float(lam[2]), lam[3] * LN2, lam[4] / 2.0]
-    cmds = ["pf %s %r %r %d %s" % (r["fn"], r["mn"] / 2.0, r["cut"] / 2.0, np_, " ".join(repr(x) for x in par))]
-    for pt in r["pts"]:
-        x = pt["P"] / 2.0
-        cmds.append("F %r" % x)
-        for i in range(np_):
-            cmds.append("DF %d %r" % (i, x))
-        for i in range(np_):
-            for j in range(np_):
-                cmds.append("D2F %d %d %r" % (i, j, x))
-    cmds.append("tab %r" % (r["tab"]["step"] / 2.0))
-    t2 = r["tab2"]
-    cmds.append("tab2 %r %r %r" % (t2["step"] / 2.0, t2["lo"] / 2.0, t2["hi"] / 2.0))
-    return cmds, np_
+def _rows3(lines):
+    rows, n = [], None
+    for ln in lines:
+        p = ln.split()
+        if p and p[0] == "rows":
+            n = int(p[1])
+        elif p and p[0] == "row":
+            rows.append((float(p[1]), float(p[2]), p[3] if len(p) > 3 else ""))
+    if n is None or n != len(rows):
+        return None
+    return rows
 
 
-def _check_table(ctx, cls, r, rows_exp, got, what, conv_x):
-    """rows_exp: list of (x_real, zone, (value, mag)); got: parsed rows or None"""
-    if got is None or len(got) != len(rows_exp):
-        ctx.violation("%s:SavePotTab:grid" % cls, "%s: %s rows written, %d expected; scenario %s"
-                      % (what, "no" if got is None else len(got), len(rows_exp), conv_x), r)
-        return
-    for (x, zone, (v, mag)), (gx, gy) in zip(rows_exp, got):
+class Script:
+    """a command sequence against ONE driver object with a checker per command; the first failing checker
+    (which reports the violation itself and returns False) ends the evaluation of the scenario"""
+
+    def __init__(self):
+        self.cmds, self.chk = [], []
+
+    def add(self, cmd, fn=None):
+        self.cmds.append(cmd)
+        self.chk.append(fn)
+
+    def run(self, out):
+        for o, fn in zip(out, self.chk):
+            if fn is not None and fn(o) is False:
+                return False
+        return True
+
+
+def _table_match(rows_exp, got, rel=2e-9):
+    """rows_exp: [(x, accept, value, mag)], accept in {"exact", "either"} (either = the function or zero).
+    Returns None if the written rows are that table, else (kind, text)."""
+    if got is None:
+        return ("grid", "no table written")
+    if len(got) != len(rows_exp):
+        return ("grid", "%d rows written, %d expected" % (len(got), len(rows_exp)))
+    for (x, acc, v, mag), row in zip(rows_exp, got):
+        gx, gy = row[0], row[1]
         if not near(gx, x, abs(x), 1e-9):
-            ctx.violation("%s:SavePotTab:grid" % cls, "%s: row at r=%r, expected grid point %r" % (what, gx, x), r)
-            return
-        ok = near(gy, v, mag, 2e-9)
-        if zone == "below":
+            return ("grid", "row at r=%r, expected grid point %r" % (gx, x))
+        ok = near(gy, v, mag, rel)
+        if acc == "either":
             ok = ok or abs(gy) <= 1e-9 * mag
         if not ok:
-            ctx.violation("%s:SavePotTab:value" % cls, "%s: tabulated %r at r=%r but the function is %r" % (what, gy, x, v), r)
-            return
+            return ("value", "tabulated %r at r=%r but the function is %r" % (gy, x, v))
+    return None
 
 
-def _check_lj(ctx, r, out):
+def _lj_par(r):
+    lam, q = r["lam"], float(r["Q"])
+    par = [float(lam[0]), float(lam[1])]
+    if r["fn"] == "ljg":
+        par += [float(lam[2]), lam[3] * LN2, lam[4] / q]
+    return par
+
+
+def _lj_rows(r, rows):
+    """TLC rows -> [(x, accept, value, mag)].  Off the dyadic lattice the code's `r += step` accumulates
+    round-off, so an INTERIOR row that sits exactly on min or cut may fall on either side (DESIGN 7.5)."""
+    q = float(r["Q"])
+    out = []
+    for n, row in enumerate(rows):
+        v, mag = real(row["F"])
+        edge = r["Q"] != 2 and row["P"] in (r["mn"], r["cut"]) and 0 < n < len(rows) - 1
+        if edge or row["zone"] == "below":
+            fv, fm = real(row["Ff"]) if "Ff" in row else (v, mag)
+            out.append((row["P"] / q, "either", fv, max(fm, 1e-300)))
+        else:
+            out.append((row["P"] / q, "exact", v, mag))
+    return out
+
+
+def _lj_script(ctx, r, nxt):
     cls = PFCLASS[r["fn"]]
     np_ = 2 if r["fn"] == "lj126" else 5
-    if _exc(out[0]):
-        ctx.violation("%s:constructor" % cls, "%s for %s" % (_exc(out[0]), r["lam"]), r)
-        return
-    k = 1
-    for pt in r["pts"]:
-        zone = pt["zone"]
-        x = pt["P"] / 2.0
-        exp = [("CalculateF", real(pt["F"]))]
+    q = float(r["Q"])
+    par = _lj_par(r)
+    S = Script()
+
+    def viol(key, text):
+        ctx.violation("%s:%s" % (cls, key), "%s (lam=%s, min=%r, cut=%r)" % (text, r["lam"], r["mn"] / q, r["cut"] / q), r)
+        return False
+    viol0 = viol
+
+    def point(rec, pt, full, sfx):
+        x = pt["P"] / q
+        if rec is not r:
+            def viol(key, text):     # second use of the object: report the parameters it has then
+                ctx.violation("%s:%s" % (cls, key), "%s (object re-parameterised to lam=%s, min=%r, cut=%r after lam=%s)"
+                              % (text, rec["lam"], rec["mn"] / q, rec["cut"] / q, r["lam"]), {"first": r, "then": rec})
+                return False
+        else:
+            viol = viol0
+        exp = [("CalculateF", "F %r" % x, real(pt["F"]))]
         for i in range(np_):
-            exp.append(("CalculateDF:%d" % i, real(pt["DF"][i])))
-        d2 = {}
-        for i in range(np_):
-            for j in range(np_):
-                exp.append(("CalculateD2F:%d,%d" % (i, j), real(pt["D2F"][i][j])))
+            exp.append(("CalculateDF:%d" % i, "DF %d %r" % (i, x), real(pt["DF"][i])))
+        if full:
+            for i in range(np_):
+                for j in range(np_):
+                    exp.append(("CalculateD2F:%d,%d" % (i, j), "D2F %d %d %r" % (i, j, x), real(pt["D2F"][i][j])))
         got = []
-        for (name, _) in exp:
-            v = _val(out[k])
-            if v is None:
-                ctx.violation("%s:%s:exception" % (cls, name), "%s at r=%r" % (out[k], x), r)
-                return
-            got.append(v[0])
-            k += 1
-        okf = [near(g, e[1][0], e[1][1]) for g, e in zip(got, exp)]
-        okz = [abs(g) <= 1e-9 * max(e[1][1], 1e-300) if e[1][1] > 0 else g == 0.0 for g, e in zip(got, exp)]
-        # r < min is outside the quantified range: consistently the formula or consistently cut to zero
-        good = all(okf) or (zone == "below" and all(okz))
-        bad = [n for (n, _), a in zip(exp, okf) if not a]
-        if not good:
-            name = bad[0] if bad else exp[0][0]
-            idx = [n for n, _ in exp].index(name)
-            ctx.violation("%s:%s:%s" % (cls, name, zone),
-                          "%s(r=%r) = %r but the derivative of CalculateF is %r (lam=%s, min=%r, cut=%r)"
-                          % (name, x, got[idx], exp[idx][1][0], r["lam"], r["mn"] / 2.0, r["cut"] / 2.0), r)
-            return
-        # symmetry of the reported second derivatives (two outputs of the code, compared exactly)
-        for i in range(np_):
-            for j in range(i):
-                a, b = got[1 + np_ + i * np_ + j], got[1 + np_ + j * np_ + i]
-                if a != b and not near(a, b, max(abs(a), abs(b)), 1e-12):
-                    ctx.violation("%s:CalculateD2F:asymmetric" % cls,
-                                  "D2F(%d,%d)=%r but D2F(%d,%d)=%r at r=%r lam=%s" % (i, j, a, j, i, b, x, r["lam"]), r)
-                    return
-    for name in ("tab", "tab2"):
-        t = r[name]
-        rows_exp = [(row["P"] / 2.0, row["zone"], real(row["F"])) for row in t["rows"]]
-        rows_exp = [(x, z, (v, max(m, 1e-300))) for x, z, (v, m) in rows_exp]
-        _check_table(ctx, cls, r, rows_exp, _rows(out[k]), "SavePotTab(%s)" % name, r["lam"])
-        k += 1
+
+        def step(name, last):
+            def fn(o):
+                v = _val(o)
+                if v is None:
+                    return viol("%s:exception%s" % (name, sfx), "%s at r=%r" % (o, x))
+                got.append(v[0])
+                if not last:
+                    return True
+                zone = pt["zone"]
+                okf = [near(g, e[2][0], e[2][1]) for g, e in zip(got, exp)]
+                okz = [(abs(g) <= 1e-9 * e[2][1]) if e[2][1] > 0 else g == 0.0 for g, e in zip(got, exp)]
+                # r < min is outside the quantified range: consistently the formula or consistently cut to zero
+                if not (all(okf) or (zone == "below" and all(okz))):
+                    k = okf.index(False)
+                    where = zone + (":at-cut" if pt["P"] == rec["cut"] else ":at-min" if pt["P"] == rec["mn"] else "")
+                    return viol("%s:%s%s" % (exp[k][0], where, sfx),
+                                "%s(r=%r) = %r but the derivative of CalculateF is %r" % (exp[k][0], x, got[k], exp[k][2][0]))
+                if full:
+                    for i in range(np_):
+                        for j in range(i):
+                            a, b = got[1 + np_ + i * np_ + j], got[1 + np_ + j * np_ + i]
+                            if a != b and not near(a, b, max(abs(a), abs(b)), 1e-12):
+                                return viol("CalculateD2F:asymmetric", "D2F(%d,%d)=%r but D2F(%d,%d)=%r at r=%r" % (i, j, a, j, i, b, x))
+                return True
+            return fn
+        for n, (name, cmd, _) in enumerate(exp):
+            S.add(cmd, step(name, n == len(exp) - 1))
+
+    S.add("pf %s %r %r %d %s" % (r["fn"], r["mn"] / q, r["cut"] / q, np_, " ".join(repr(x) for x in par)),
+          lambda o: True if (o and o[0].startswith("ok")) else viol("constructor", "%s" % o))
+    for pt in r["pts"]:
+        point(r, pt, True, "")
+    # SavePotTab, both overloads, steps that divide the range and steps that do not
+    for t in r["tabs"]:
+        cmd = ("tab %r" % (t["step"] / q)) if t["call"] == "tab" else ("tab2 %r %r %r" % (t["step"] / q, t["lo"] / q, t["hi"] / q))
+
+        def tabfn(o, t=t, cmd=cmd):
+            got = _rows3(o)
+            res = [_table_match(_lj_rows(r, v), got) for v in t["variants"]]
+            if any(x is None for x in res):
+                return True
+            kind, text = sorted(res, key=lambda x: x[0] != "value")[0]
+            nd = "" if len(t["variants"]) == 1 else ":nondividing-step"
+            return viol("SavePotTab:%s%s" % (kind, nd), "%s: %s" % (cmd, text))
+        S.add(cmd, tabfn)
+    if r["big"]:
+        bt = r["bigtab"]
+
+        def bigfn(o):
+            got = _rows3(o)
+            if got is None or len(got) != bt["n"]:
+                return viol("SavePotTab:grid:long", "%s rows written, %d expected" % (None if got is None else len(got), bt["n"]))
+            exp = _lj_rows(r, bt["rows"])
+            m = _table_match(exp, [got[k * bt["every"]] for k in range(len(exp))])
+            return True if m is None else viol("SavePotTab:%s:long" % m[0], m[1])
+        S.add("tab %r" % (1.0 / q), bigfn)
+    # SaveParam: the parameters, numbered; kept for the round trip below
+
+    def savefn(o):
+        got = _rows3(o)
+        if got is None or len(got) != np_ or any(not near(g[0], i, 1, 1e-12) or not near(g[1], p, abs(p), 2e-9)
+                                                 for i, (g, p) in enumerate(zip(got, par))):
+            return viol("SaveParam", "file %s for parameters %s" % (got, par))
+        return True
+    S.add("saveparam", savefn)
+    # the SAME object used again: every parameter through setParam(i, v), the window through setMinDist /
+    # setCutOffDist, then value and first derivatives of the next scenario
+    if nxt is not None:
+        par2 = _lj_par(nxt)
+        for k, v in enumerate(par2):
+            S.add("setpar %d %r" % (k, v))
+        S.add("setmin %r" % (nxt["mn"] / q))
+        S.add("setcut %r" % (nxt["cut"] / q))
+        for pt in nxt["pts"]:
+            point(nxt, pt, False, ":reuse")
+    # setParam(file) brings the saved parameters back
+
+    def loadfn(o):
+        return True if (o and o[0].startswith("ok")) else viol("setParam(file)", "%s" % o)
+
+    def parfn(o):
+        got = [float(t) for ln in o if ln.startswith("params") for t in ln.split()[1:]]
+        if len(got) != np_ or any(not near(g, p, abs(p), 2e-9) for g, p in zip(got, par)):
+            return viol("setParam(file):roundtrip", "parameters %s after SaveParam + setParam(file), saved %s" % (got, par))
+        return True
+    S.add("loadfile", loadfn)
+    S.add("params", parfn)
+    # error path: a file with the wrong number of parameters is rejected
+    S.add("loadparam %d %s" % (np_ + 1, " ".join("1" for _ in range(np_ + 1))),
+          lambda o: True if _exc(o) else viol("setParam(file):size", "a file with %d parameters was accepted" % (np_ + 1)))
+    return S
 
 
 def _spl_r(r, X):
     return (X / float(r["M"])) * ((r["cut8"] / LAT) / r["NI"])
 
 
-def _spl_cmds(r):
-    nl = len(r["lam"])
-    cmds = ["pf cbspl %r %r %d %s" % (_spl_r(r, r["xmin"]), r["cut8"] / LAT, nl, " ".join(repr(float(x)) for x in r["lam"]))]
-    for pt in r["pts"]:
-        x = _spl_r(r, pt["X"])
-        cmds.append("F %r" % x)
-        for i in range(r["nopt"]):
-            cmds.append("DF %d %r" % (i, x))
-        cmds.append("D2F 0 %d %r" % (r["nopt"] - 1, x))
-        cmds.append("D2F %d 0 %r" % (r["nopt"] - 1, x))
-    for i in range(r["nopt"]):
-        cmds.append("getopt %d" % i)
-        cmds.append("setopt %d %r" % (i, float(r["lam"][i + r["nexcl"]] + 1)))
-        for pt in r["pts"]:
-            cmds.append("F %r" % _spl_r(r, pt["X"]))
-        cmds.append("setopt %d %r" % (i, float(r["lam"][i + r["nexcl"]])))
-    cmds.append("tab %r" % _spl_r(r, r["tab"]["step"]))
-    cmds.append("params")
-    for row in r["tab"]["rows"]:
-        cmds.append("F %r" % _spl_r(r, row["X"]))
-    return cmds
-
-
-def _check_spl(ctx, r, out):
+def _spl_script(ctx, r, nxt):
     cls = PFCLASS["cbspl"]
     den = float(r["den"])
     mag = float(max(1, max(abs(x) for x in r["lam"])) + 1)
-    if _exc(out[0]) or not out[0] or not out[0][0].startswith("ok"):
-        ctx.violation("%s:constructor" % cls, "%s for %s" % (out[0], r), r)
-        return
-    p = out[0][0].split()
-    if int(p[4]) != r["nopt"]:
-        ctx.violation("%s:getOptParamSize" % cls, "%s optimised coefficients, %d expected (min=%r, dr=%r)"
-                      % (p[4], r["nopt"], _spl_r(r, r["xmin"]), _spl_r(r, r["M"])), r)
-        return
-    k = 1
+    emag = float(max(1, max(abs(x) for x in r["ext"])) + 1)
+    nl = len(r["lam"])
+    S = Script()
+    st = {}
 
-    def take(name, x, exp, tol_mag):
-        nonlocal k
-        v = _val(out[k])
-        k += 1
-        if v is None:
-            ctx.violation("%s:%s:exception" % (cls, name.split("(")[0]), "%s at r=%r" % (out[k - 1], x), r)
-            return False
-        if not near(v[0], exp, tol_mag):
-            where = "beyond-cut" if exp == 0 and x > r["cut8"] / LAT else "in"
-            ctx.violation("%s:%s:%s" % (cls, name.split("(")[0], where),
-                          "%s = %r at r=%r but the spline gives %r (coefficients %s, dr=%r)"
-                          % (name, v[0], x, exp, r["lam"], _spl_r(r, r["M"])), r)
-            return False
+    def viol(key, text):
+        ctx.violation("%s:%s" % (cls, key), "%s (coefficients %s, dr=%r, min=%r)" % (text, r["lam"], _spl_r(r, r["M"]), _spl_r(r, r["xmin"])), r)
+        return False
+
+    def ctor(o):
+        if _exc(o) or not o or not o[0].startswith("ok"):
+            return viol("constructor", "%s" % o)
+        p = o[0].split()
+        if int(p[4]) != r["nopt"]:
+            return viol("getOptParamSize", "%s optimised coefficients, %d expected" % (p[4], r["nopt"]))
         return True
 
+    def take(name, x, exp, tol_mag, sfx=""):
+        def fn(o):
+            v = _val(o)
+            if v is None:
+                return viol("%s:exception%s" % (name.split("(")[0].split("[")[0], sfx), "%s at r=%r" % (o, x))
+            if not near(v[0], exp, tol_mag):
+                where = "beyond-cut" if x > r["cut8"] / LAT else ("at-cut" if x == r["cut8"] / LAT else "in")
+                return viol("%s:%s%s" % (name.split("(")[0].split("[")[0], where, sfx),
+                            "%s = %r at r=%r but the spline gives %r" % (name, v[0], x, exp))
+            return True
+        return fn
+
+    def pf_cmd(lam):
+        return "pf cbspl %r %r %d %s" % (_spl_r(r, r["xmin"]), r["cut8"] / LAT, nl, " ".join(repr(float(x)) for x in lam))
+
+    S.add(pf_cmd(r["lam"]), ctor)
     for pt in r["pts"]:
         x = _spl_r(r, pt["X"])
-        if not take("CalculateF", x, pt["F"] / den, mag):
-            return
+        S.add("F %r" % x, take("CalculateF", x, pt["F"] / den, mag))
         for i in range(r["nopt"]):
-            if not take("CalculateDF(%d)" % i, x, pt["DF"][i] / den, 1.0):
-                return
-        for _ in range(2):
-            if not take("CalculateD2F", x, 0.0, 1e-3):
-                return
+            S.add("DF %d %r" % (i, x), take("CalculateDF(%d)" % i, x, pt["DF"][i] / den, 1.0))
+        S.add("D2F 0 %d %r" % (r["nopt"] - 1, x), take("CalculateD2F", x, 0.0, 1e-3))
+        S.add("D2F %d 0 %r" % (r["nopt"] - 1, x), take("CalculateD2F", x, 0.0, 1e-3))
     for i in range(r["nopt"]):
-        if not take("getOptParam(%d)" % i, 0.0, float(r["lam"][i + r["nexcl"]]), mag):
-            return
-        k += 1
+        S.add("getopt %d" % i, take("getOptParam(%d)" % i, 0.0, float(r["lam"][i + r["nexcl"]]), mag))
+        S.add("setopt %d %r" % (i, float(r["lam"][i + r["nexcl"]] + 1)))
         for pt in r["pts"]:
             # F after setOptParam(i, lam+1): the exact finite difference of the linear form
-            if not take("CalculateF[setOptParam(%d)+1]" % i, _spl_r(r, pt["X"]), pt["Fb"][i] / den, mag):
-                return
-        k += 1
-    got = _rows(out[k])
-    k += 1
-    params = None
-    for ln in out[k]:
-        if ln.startswith("params"):
-            params = [float(t) for t in ln.split()[1:]]
-    k += 1
-    emag = float(max(1, max(abs(x) for x in r["ext"])) + 1)
-    rows_exp = [(_spl_r(r, row["X"]), "in", (row["F"] / den, emag)) for row in r["tab"]["rows"]]
-    n0 = len(ctx.violations) + len(ctx.known_hit)
-    # is the table what the TLC model of extrapolExclParam + CalculateF says?
-    model_ok = (got is not None and len(got) == len(rows_exp)
-                and all(near(gx, x, abs(x)) and near(gy, v, m, 2e-9) for (x, _, (v, m)), (gx, gy) in zip(rows_exp, got)))
-    if not model_ok:
-        # the statement: the table equals the function (as it is after the call) on the grid
-        after = []
-        for row in r["tab"]["rows"]:
-            v = _val(out[k])
-            k += 1
-            after.append(v[0] if v else float("nan"))
-        self_ok = (got is not None and len(got) == len(rows_exp)
-                   and all(near(gx, x, abs(x)) and near(gy, a, emag, 2e-9) for (x, _, _), (gx, gy), a in zip(rows_exp, got, after)))
-        if self_ok:
-            ctx.extra["algo_drift_warnings"] = ctx.extra.get("algo_drift_warnings", 0) + 1
-            vlib.log("WARNING: CBSPL table equals CalculateF on the grid but the core extrapolation differs from "
-                     "the transcription in PotFn.tla (Extrapolated): params %s, model %s" % (params, r["ext"]))
-        else:
-            _check_table(ctx, cls, r, rows_exp, got, "SavePotTab", r["lam"])
-            if len(ctx.violations) + len(ctx.known_hit) == n0:
-                ctx.violation("%s:SavePotTab:value" % cls, "table %s differs from the function after the call %s" % (got, after), r)
+            S.add("F %r" % _spl_r(r, pt["X"]),
+                  take("CalculateF[setOptParam(%d)+1]" % i, _spl_r(r, pt["X"]), pt["Fb"][i] / den, mag))
+        S.add("setopt %d %r" % (i, float(r["lam"][i + r["nexcl"]])))
+    rows_exp = [(_spl_r(r, row["X"]), "exact", row["F"] / den, emag) for row in r["tab"]["rows"]]
+
+    # SavePotTab: is the table what the TLC model of extrapolExclParam + CalculateF says?  If only the core
+    # extrapolation differs from the transcription but the table is the function (as it is after the call) on
+    # the grid, that is a warning (DESIGN 7.8)
+    def tab1(o):
+        st["got"] = _rows3(o)
+        st["m"] = _table_match(rows_exp, st["got"])
+        return True
+
+    def par1(o):
+        st["params"] = [float(t) for ln in o if ln.startswith("params") for t in ln.split()[1:]]
+        st["after"] = []
+        return True
+
+    def after(last):
+        def fn(o):
+            v = _val(o)
+            st["after"].append(v[0] if v else float("nan"))
+            if not last or st["m"] is None:
+                return True
+            self_exp = [(x, "exact", a, emag) for (x, _, _, _), a in zip(rows_exp, st["after"])]
+            if _table_match(self_exp, st["got"]) is None:
+                ctx.extra["algo_drift_warnings"] = ctx.extra.get("algo_drift_warnings", 0) + 1
+                vlib.log("WARNING: CBSPL table equals CalculateF on the grid but the core extrapolation differs from "
+                         "the transcription in PotFn.tla (Extrapolated): params %s, model %s" % (st["params"], r["ext"]))
+                st["drift"] = True
+                return True
+            return viol("SavePotTab:%s" % st["m"][0], "SavePotTab: %s" % st["m"][1])
+        return fn
+    S.add("tab %r" % _spl_r(r, r["tab"]["step"]), tab1)
+    S.add("params", par1)
+    for n, row in enumerate(r["tab"]["rows"]):
+        S.add("F %r" % _spl_r(r, row["X"]), after(n == len(r["tab"]["rows"]) - 1))
+
+    # the same object again: a second SavePotTab writes the same table (the extrapolation is idempotent)
+    def tab2(o):
+        if st.get("drift"):
+            return True
+        m = _table_match(rows_exp, _rows3(o))
+        return True if m is None else viol("SavePotTab:%s:second-call" % m[0], "second SavePotTab: %s" % m[1])
+    S.add("tab %r" % _spl_r(r, r["tab"]["step"]), tab2)
+
+    # SaveParam: knot positions, extrapolated coefficients, flags; then setParam(file) into a NEW object
+    def savefn(o):
+        if st.get("drift"):
+            return True
+        got = _rows3(o)
+        if got is None or len(got) != nl:
+            return viol("SaveParam", "file %s" % got)
+        for k, (g, e, f) in enumerate(zip(got, r["ext"], r["flags"])):
+            if not near(g[0], _spl_r(r, k * r["M"]), 1.0) or not near(g[1], e, emag, 2e-9):
+                return viol("SaveParam", "row %d is %s, expected knot %r coefficient %r" % (k, g, _spl_r(r, k * r["M"]), e))
+            if g[2] != f:
+                return viol("SaveParam:flag", "row %d has flag '%s', expected '%s'" % (k, g[2], f))
+        return True
+    S.add("saveparam", savefn)
+    S.add(pf_cmd([9] * nl), ctor)
+    S.add("loadfile", lambda o: True if (o and o[0].startswith("ok")) else viol("setParam(file)", "%s" % o))
+
+    def parfn(o):
+        if st.get("drift"):
+            return True
+        got = [float(t) for ln in o if ln.startswith("params") for t in ln.split()[1:]]
+        if len(got) != nl or any(not near(g, e, emag, 2e-9) for g, e in zip(got, r["reload"])):
+            return viol("setParam(file):roundtrip", "coefficients %s after SaveParam + setParam(file), expected %s (last four zero)"
+                        % (got, r["reload"]))
+        return True
+    S.add("params", parfn)
+    for pt in r["pts"]:
+        x = _spl_r(r, pt["X"])
+        S.add("F %r" % x, take("CalculateF[reloaded]", x, pt["Fr"] / den, emag, ":reloaded"))
+    # error path, then the object is used again (setParam(vector) + CalculateF of another scenario)
+    S.add("loadparam 3 1 2 3", lambda o: True if _exc(o) else viol("setParam(file):size", "a file with 3 coefficients was accepted"))
+    other = nxt if nxt is not None else r
+    S.add("setvec %d %s" % (nl, " ".join(repr(float(x)) for x in other["lam"])),
+          lambda o: True if (o and o[0].startswith("ok")) else viol("setParam(vector):after-failed-load", "%s" % o))
+    for pt in other["pts"]:
+        x = _spl_r(r, pt["X"])
+        S.add("F %r" % x, take("CalculateF[after failed load]", x, pt["F"] / den, mag + 10, ":reuse"))
+    return S
 
 
 def run_potentials(ctx, exe):
     mod = "MCPotQuick" if ctx.quick else "MCPotThorough"
     res = vlib.tlc("derivs", mod, cfg=mod + ".cfg", workers=4, timeout=2400)
-    vlib.tlc_must_hold(res, "PotFn: symbolic derivative = closed forms, symmetry, B-spline basis = Cox-de Boor")
+    vlib.tlc_must_hold(res, "PotFn: symbolic derivative = closed forms, symmetry, B-spline basis = Cox-de Boor, "
+                            "admitted tables are the function on their grid")
     ctx.add_tlc(mod, res)
     vecs = res.records
     if 2 * len(vecs) != res.distinct:
         raise vlib.InfraError("potential vector export incomplete: %d records for %d states" % (len(vecs), res.distinct))
-    fns = {}
-    items = []
+    # partner for the second use of the same object: the next scenario of the same class / lattice / knots
+    def cls_of(r):
+        return (r["fn"], r.get("Q"), r.get("big"), r.get("NI"), r.get("M"), r.get("xmin"), r.get("cut8"))
+    groups = {}
+    for i, r in enumerate(vecs):
+        groups.setdefault(cls_of(r), []).append(i)
+    partner = {}
+    for ids in groups.values():
+        for n, i in enumerate(ids):
+            if len(ids) > 1:
+                partner[i] = ids[(n + 1) % len(ids)]
+    fns, items, scripts = {}, [], {}
+    stats = dict(reuse=0, nondiv=0, decimal=0, long_rows=0, at_cut=0, at_min=0)
     for i, r in enumerate(vecs):
         fns[r["fn"]] = fns.get(r["fn"], 0) + 1
-        items.append((i, _spl_cmds(r) if r["fn"] == "cbspl" else _lj_cmds(r)[0]))
+        nxt = vecs[partner[i]] if i in partner else None
+        if r["fn"] == "cbspl":
+            S = _spl_script(ctx, r, nxt)
+        else:
+            if r["big"]:
+                nxt = None
+                stats["long_rows"] = max(stats["long_rows"], r["bigtab"]["n"])
+            S = _lj_script(ctx, r, nxt)
+            stats["nondiv"] += sum(1 for t in r["tabs"] if len(t["variants"]) == 2)
+            stats["decimal"] += r["Q"] == 10
+            stats["at_cut"] += sum(1 for pt in r["pts"] if pt["P"] == r["cut"])
+            stats["at_min"] += sum(1 for pt in r["pts"] if pt["P"] == r["mn"])
+        stats["reuse"] += nxt is not None
+        scripts[i] = S
+        items.append((i, S.cmds))
     if sorted(fns) != ["cbspl", "lj126", "ljg"]:
         raise vlib.InfraError("vacuous potential export: %s" % fns)
+    if (stats["reuse"] < 100 or stats["nondiv"] < 100 or stats["decimal"] < 2 or stats["long_rows"] < 100000
+            or stats["at_cut"] < 100 or stats["at_min"] < 100):
+        raise vlib.InfraError("vacuous potential layers: %s" % stats)
     results, crashes = vlib.run_items(exe, items, env={"VERIF_SCRATCH": vlib.SCRATCH})
     npts = 0
     for i, r in enumerate(vecs):
         ctx.count(len(r["pts"]))
-        ctx.traces += 1        # one object stepped through a command sequence (construct, evaluate, setOptParam, SavePotTab)
+        ctx.traces += 1        # one object stepped through a command sequence (construct, evaluate, setOptParam, SavePotTab, ...)
         npts += len(r["pts"])
-        ctx.nontriv(("pot", r["fn"], str(r["lam"]), str(r.get("mn")), str(r.get("xmin")), str(r.get("NI"))))
+        ctx.nontriv(("pot", r["fn"], str(r["lam"]), str(r.get("mn")), str(r.get("xmin")), str(r.get("NI")), str(r.get("Q"))))
         if i in crashes:
             ctx.violation("%s:crash" % PFCLASS[r["fn"]], "driver died: " + crashes[i], r)
             continue
-        if r["fn"] == "cbspl":
-            _check_spl(ctx, r, results[i])
-        else:
-            _check_lj(ctx, r, results[i])
+        if len(results[i]) != len(scripts[i].cmds):
+            raise vlib.InfraError("driver answered %d of %d commands" % (len(results[i]), len(scripts[i].cmds)))
+        scripts[i].run(results[i])
     ctx.extra["potential_scenarios"] = fns
     ctx.extra["potential_points"] = npts
+    ctx.extra["potential_layers"] = stats
     for fn in ("ljg", "cbspl"):
         for r in vecs:
             if r["fn"] == fn:
                 small = dict(r)
                 small["pts"] = r["pts"][:2]
+                small.pop("tabs", None)
                 ctx.sample({"potential": small}, limit=8)
                 break
 
@@ -521,10 +735,9 @@ def run(ctx):
         r = json.load(open(ctx.replay))["replay"]
         if "k" in r:
             cmds, chk = [_geom_cmd(r)], (lambda out: _check_geom(ctx, r, out[0]))
-        elif r.get("fn") == "cbspl":
-            cmds, chk = _spl_cmds(r), (lambda out: _check_spl(ctx, r, out))
         elif "fn" in r:
-            cmds, chk = _lj_cmds(r)[0], (lambda out: _check_lj(ctx, r, out))
+            S = _spl_script(ctx, r, None) if r["fn"] == "cbspl" else _lj_script(ctx, r, None)
+            cmds, chk = S.cmds, S.run
         else:
             cmds, chk = _spline_cmds(r), (lambda out: _check_spline(ctx, r, out))
         results, crashes = vlib.run_items(exe, [(0, cmds)], env={"VERIF_SCRATCH": vlib.SCRATCH})
